@@ -57,6 +57,15 @@ def clone_answers(seed: int, params: dict[str, Any], session: int, pdus: list[by
     return out
 
 
+def _skip_arg(skip: dict[int, list[int] | None], case: dict[str, Any]) -> Any:
+    """The skip option as range-expression tokens (command line) or as a ready-made mapping (a script that builds the configuration
+    itself, a stored configuration): in the latter case the lists are given in descending order - a mapping says which ids, not in
+    which order."""
+    if case.get("skip_as_dict"):
+        return {k: (None if v is None else sorted(v, reverse=True)) for k, v in skip.items()}
+    return skip_text(skip, bool(case.get("skip_redundant")))
+
+
 def skip_text(skip: dict[int, list[int] | None], redundant: bool = False) -> list[str]:
     """Range-expression tokens for a skip map. redundant: a whole-session entry is followed by an entry that names single ids of the
     same session - by the documented semantics of the expression language the bare entry wins, the map is the same."""
@@ -88,7 +97,7 @@ def services_case(draw) -> dict[str, Any]:
     drop_s = st.lists(st.sampled_from([0x00, 0x11, 0x14, 0x22, 0x27, 0x2E, 0x31, 0x85, 0xA0, 0xFE]), unique=True, min_size=1, max_size=3).map(sorted)
     return {"kind": "services", "seed": seed, "params": params, "sessions": sessions, "skip": {str(k): v for k, v in skip.items()},
             "scan_response_ids": draw(st.booleans()), "check_session": True if fallback else draw(st.booleans()), "tester_present": draw(st.booleans()),
-            "skip_redundant": draw(st.booleans()),
+            "skip_redundant": draw(st.booleans()), "skip_as_dict": draw(st.integers(0, 2)) == 0,
             # probes (service id + n zero bytes) the ECU does not answer at all
             "mute": draw(st.one_of(st.just([]), st.lists(st.tuples(st.sampled_from([0x10, 0x11, 0x14, 0x19, 0x22, 0x27, 0x2E, 0x31, 0x85]), st.sampled_from([1, 2, 3])).map(list), max_size=4))),
             # the ECU falls back to the default session after it has finished answering the probes of these service ids
@@ -125,7 +134,7 @@ def identifiers_case(draw) -> dict[str, Any]:
     # identifiers after whose (first) probe the ECU falls back to the default session; only with a session check before every probe
     drop = draw(st.lists(st.integers(start, end), unique=True, min_size=1, max_size=3).map(sorted)) if (check_session == 1 and sessions and draw(st.booleans())) else []
     return {"kind": "identifiers", "seed": seed, "params": params, "service": svc, "start": start, "end": end, "sessions": sessions,
-            "skip": {str(k): v for k, v in skip.items()}, "payload": payload, "check_session": check_session, "drop": drop, "skip_redundant": draw(st.booleans())}
+            "skip": {str(k): v for k, v in skip.items()}, "payload": payload, "check_session": check_session, "drop": drop, "skip_redundant": draw(st.booleans()), "skip_as_dict": draw(st.integers(0, 2)) == 0}
 
 
 def enterable(model: dict[int, dict[int, list[int] | None]], sessions: list[int]) -> list[tuple[int, bool]]:
@@ -167,7 +176,7 @@ def check_services(case: dict[str, Any]) -> list[tuple[str, str]]:
 
     server = vecu.make_server(case["seed"], case["params"], [])
     skip = {int(k): v for k, v in case["skip"].items()}
-    cfg = ServicesScannerConfig(target="tcp-lines://127.0.0.1:1", sessions=case["sessions"], skip=skip_text(skip, bool(case.get("skip_redundant"))) if skip else {},
+    cfg = ServicesScannerConfig(target="tcp-lines://127.0.0.1:1", sessions=case["sessions"], skip=(_skip_arg(skip, case)) if skip else {},
                                 scan_response_ids=case["scan_response_ids"], check_session=case["check_session"], dumpcap=False, timeout=0.5,
                                 properties=False, tester_present=case["tester_present"])
     drop = set(drop_effective(case, server))
@@ -254,7 +263,7 @@ def check_identifiers(case: dict[str, Any]) -> list[tuple[str, str]]:
     server = vecu.make_server(case["seed"], case["params"], [])
     skip = {int(k): v for k, v in case["skip"].items()}
     svc = case["service"]
-    cfg = ScanIdentifiersConfig(target="tcp-lines://127.0.0.1:1", sessions=case["sessions"], skip=skip_text(skip, bool(case.get("skip_redundant"))) if skip else {}, start=case["start"], end=case["end"],
+    cfg = ScanIdentifiersConfig(target="tcp-lines://127.0.0.1:1", sessions=case["sessions"], skip=(_skip_arg(skip, case)) if skip else {}, start=case["start"], end=case["end"],
                                 service=svc, payload=case["payload"], check_session=case["check_session"], dumpcap=False, timeout=0.5, properties=False,
                                 tester_present=False)
     drop = set(case.get("drop") or [])
